@@ -217,7 +217,169 @@ class C15(Prop):
     partial = "prefill-independence / no-overrun are shown by the differential run, not yet by a buffer-level Lean theorem"
 
 
-ALL = {c.id: c for c in [C01, C02, C06, C07, C08, C11, C15, C18, C19]}
+class Proto(Prop):
+    """protocol properties: scripts from harness/cmd/protogen, executed by the go1.26.8 test binary
+    harness/proto under testing/synctest (virtual time), monitors by protogen -check"""
+    harness = "proto"
+    harness_go = "go1.26.8"
+    harness_test = True
+    harness_pkg = "./proto"
+    extra_harness = ["protogen"]
+    budgets = {"quick": 300, "thorough": 3000}
+    thorough_seeds = 3
+    level_note = (Prop.level_note + " The real client runs on an injected in-memory socket (build tag verif) under "
+                  "testing/synctest, whose fake clock is trusted to fire timers in order; schedules in which a goroutine "
+                  "waits for a sync.Mutex / sync.Once cannot be driven under virtual time and are not scripted.")
+
+
+def run_proto_stream(P, tier, seed, budget, workdir, binaries, drv, flag):
+    """generate scripts, run them on the real client (restarting after a crash or hang), run the monitors"""
+    os.makedirs(workdir, exist_ok=True)
+    for f in ("ops.txt", "impl.txt", "model.txt", "stats.json"):
+        fp = os.path.join(workdir, f)
+        if os.path.exists(fp):
+            os.remove(fp)
+    rc, out = runner.sh([binaries["protogen"], "-prop", flag, "-seed", str(seed), "-budget", str(budget), "-dir", workdir],
+                        cwd=workdir, timeout=600)
+    if rc != 0:
+        raise InfraError("protogen failed: " + out[-2000:])
+    ops = open(os.path.join(workdir, "ops.txt")).read().split("\n")
+    ops = [o for o in ops if o.strip()]
+    impl, crashes, start = [], [], 0
+    while start < len(ops) and len(crashes) < 6:
+        chunk_in = os.path.join(workdir, "chunk.txt")
+        chunk_out = os.path.join(workdir, "chunk.out")
+        open(chunk_in, "w").write("\n".join(ops[start:]) + "\n")
+        if os.path.exists(chunk_out):
+            os.remove(chunk_out)
+        try:
+            rc, out = runner.sh([binaries["proto"], "-test.run", "TestScripts", "-test.timeout", "0"], cwd=workdir,
+                                timeout=P.harness_timeout(P, tier),
+                                extra_env={"VERIF_OPS": chunk_in, "VERIF_OUT": chunk_out})
+        except subprocess.TimeoutExpired:
+            rc, out = 124, "timeout"
+        got = open(chunk_out).read().split("\n") if os.path.exists(chunk_out) else []
+        got = [g for g in got if g != ""] if rc == 0 else [g for g in got[:-1]] + ([got[-1]] if got and got[-1] == "HANG" else [])
+        impl += got
+        done = start + len(got)
+        if rc == 0 and done >= len(ops):
+            break
+        # the process died (fatal error / watchdog) on script number `done` (or its last line says HANG)
+        if got and got[-1] == "HANG":
+            crashes.append(dict(index=done - 1, script=ops[done - 1][:6000], what="HANG: the script did not finish within 20 s of real time"))
+            start = done
+        else:
+            idx = min(done, len(ops) - 1)
+            impl.append("CRASH")
+            crashes.append(dict(index=idx, script=ops[idx][:6000], what="the test process died: " + out[-1500:]))
+            start = idx + 1
+    impl += ["MISSING"] * (len(ops) - len(impl))
+    open(os.path.join(workdir, "impl.txt"), "w").write("\n".join(impl) + "\n")
+    rc, out = runner.sh([binaries["protogen"], "-check", "-prop", flag, "-dir", workdir], cwd=workdir, timeout=600)
+    sp = os.path.join(workdir, "stats.json")
+    if rc != 0 or not os.path.exists(sp):
+        raise InfraError("monitors failed: " + out[-2000:])
+    stats = json.load(open(sp))
+    for c in crashes:
+        stats["findings"].append(dict(property=P.id, kind="crash-or-hang", op=c["script"], detail=c["what"]))
+    if drv is None:
+        return stats, [], stats.get("ops", 0)
+    runner.run_driver(os.path.join(workdir, "ops.txt"), os.path.join(workdir, "model.txt"), drv)
+    dis, n = runner.compare(os.path.join(workdir, "ops.txt"), os.path.join(workdir, "impl.txt"),
+                            os.path.join(workdir, "model.txt"), P.proj)
+    return stats, dis, n
+
+
+class C03(Proto):
+    id = "C03"
+    lean_module = "Props.C03"
+    rule = ("scripts for the real Tunnel on an in-memory socket under virtual time: one script of 600 consecutive Sends "
+            "(the 255->0 wrap twice) and random scripts of 3..27 Sends, each Send followed by one of 12 gateway behaviours "
+            "(prompt ack, ack after k resends, wrong sequence numbers +1/-1/+128/+2 first, foreign channel first, error "
+            "status 1..255, silence, ack after the timeout, duplicated ack, ack before the Send, interleaved inbound traffic, "
+            "socket failure on a resend, ack one tick before the timeout), UDP and TCP, 4 (resend, timeout) settings. "
+            "Trace = every frame with its virtual time + every Send result, compared exactly with the model's; monitors: one "
+            "request in flight, identical periodic retransmissions, consecutive numbers, success only by a fresh matching ack, "
+            "deadline. distinct = scripts.")
+    technique = "Lean 4 proof (invariant of a timed transition system of requestTunnel/handleTunnelRes over all label sequences) + exact trace correspondence of the real client under testing/synctest"
+    level_text = ("Theorems over every label sequence (any inputs/timer expiries, any ack stream): a pending Send blocks any other "
+                  "request; retransmissions are identical, one resend interval apart, strictly before the deadline; at the deadline "
+                  "Send returns the timeout error; the ack rule (foreign channel / other number ignored, matching number completes with "
+                  "ok iff status 0); in every reachable state the pending Send carries the current counter, so a completing ack "
+                  "carries its channel and number; the counter moves +1 per completed exchange; TCP sends once and returns. "
+                  "Tie: the real Tunnel driven along generated scripts under virtual time, traces equal to the model's.")
+    partial = "mutual exclusion of real goroutines rests on sync.Mutex (trusted); concurrent senders are not driven under virtual time"
+
+
+class C04(Proto):
+    id = "C04"
+    lean_module = "Props.C04"
+    rule = ("request streams for the real receiver under virtual time: one script of ~900 events (wrap at 256) and random "
+            "scripts of 5..65 events: in-sequence requests, repetitions of the previous number (1..5x), skipped ahead +1..+3, "
+            "far behind -2..-200, foreign channel, application reads (consumer stalls of arbitrary length: every accepted "
+            "telegram is parked), gateway-initiated reconnects (new channel, expectation restarts), UDP and TCP. Trace "
+            "compared exactly with the model's; monitor recomputes expected acks and deliveries.")
+    technique = "Lean 4 proof (case law of handleTunnelReq + induction over request streams of any length) + exact trace correspondence under testing/synctest"
+    level_text = ("Theorems: the rule for one request in every state (foreign channel: nothing; expected number: accepted, +1 mod "
+                  "256, acked with same channel/number/status 0; previous number: acked again only; else nothing; TCP: accepted, "
+                  "never acked); for request streams of ANY length the accepted telegrams are exactly the in-sequence ones, each "
+                  "once, in order, and the expectation is what the stream implies (induction, Byte arithmetic covers the wrap); "
+                  "reads take the oldest accepted telegram; the expectation restarts at 0 on (re)connect.")
+
+
+class C09(Proto):
+    id = "C09"
+    lean_module = "Props.C09"
+    rule = ("scripts of 1..5 connection epochs under virtual time with heartbeat intervals 10/30/40 s below and above the "
+            "response timeout (7/23 s): every heartbeat answered OK promptly / after a resend / with an error status 1..255 / "
+            "only for a foreign channel / not at all; disconnect requests and responses for the current and for foreign "
+            "channels; reconnect answered OK / busy (0x24, 0x25) then OK / refused / never; frames for the old channel after "
+            "a reconnect; Sends and inbound telegrams interleaved. Trace compared exactly; monitors: channel of every frame, "
+            "heartbeat presence, termination consequences.")
+    technique = "Lean 4 proof (step laws of process/serve/requestConn/performHeartbeat on the transition system) + exact trace correspondence under testing/synctest"
+    level_text = ("Theorems for every state: frames of all five channel-carrying kinds for a foreign channel change nothing and "
+                  "emit nothing; the heartbeat tick emits one connection-state request for the current channel and arms resend/"
+                  "timeout; a waiting heartbeat succeeds iff the status is 0, any other status or the timeout starts a reconnect "
+                  "(connect request, ticks, deadline; workers die); a disconnect request on the current channel is answered and "
+                  "reconnects; a successful reconnect installs the new channel, both counters 0, heartbeat restarted; busy is "
+                  "tolerated, refusal / silence / a disconnect response terminate (Inbound closed, pending and later Sends fail).")
+
+
+class C10(Proto):
+    id = "C10"
+    lean_module = "Props.C10"
+    rule = ("the C03 / C04 / C09 scripts with Close injected at a random position (1..3 calls, spaced 0 / 1 s / 30 s; a call "
+            "made while another is still waiting is skipped by the harness, see level note), optionally after the socket died "
+            "(closed) or started failing, followed by a Send, a read and another Close 40 s later; synctest's end-of-bubble "
+            "check fails the script if any goroutine is left blocked (leak), a 20 s real-time watchdog marks hangs. Trace "
+            "compared exactly; monitors: Close returns within 2x response timeout, one disconnect request, nothing after "
+            "Close, Send fails, Inbound closed.")
+    technique = "Lean 4 proof (Close path lemmas + monotonicity of `done` over all label sequences) + exact trace correspondence and leak detection under testing/synctest"
+    level_text = ("Theorems: first Close while connected sends one disconnect request and returns in the same instant with socket "
+                  "and Inbound closed and the pending Send failed; during a reconnect it waits and returns when the attempt ends "
+                  "(deadline or success -> process() sees done); `done` is never cleared (every label sequence), a Close that finds it "
+                  "set transmits nothing (at most one disconnect request); Close after Close is a no-op; after it Send returns an "
+                  "error at once and Inbound reads closed; no model process survives termination.")
+    partial = ("data-race freedom and goroutine exit are Go-runtime facts: checked by synctest's leak detection on every script "
+               "(and the race detector), not proved; concurrent closers block on sync.Once and are not driven under virtual time")
+
+
+class C17(Proto):
+    id = "C17"
+    lean_module = "Props.C17"
+    rule = ("bursts of 2..64 in-sequence requests with the consumer stalled for the whole burst, and mixed streams with "
+            "intermittent reads, under virtual time (deterministic scheduling); the order of deliveries is compared with the "
+            "order of acceptance. distinct = scripts.")
+    technique = "Lean 4 proof (FIFO law of the parked-delivery queue, composed with the acceptance theorem of C04) + trace correspondence under testing/synctest"
+    level_text = ("Theorem: what is parked comes out in queue order, each telegram once; a burst followed by reads yields exactly "
+                  "the accepted telegrams in acceptance order - under the hypothesis the model embodies, that blocked pushInbound "
+                  "goroutines are served in the order they were spawned. Under testing/synctest's scheduling the real client "
+                  "satisfies it on every script.")
+    partial = ("the order in which freshly spawned goroutines reach the channel's wait queue belongs to the Go scheduler; "
+               "the property's real-scheduler violation (DESIGN D17) is not observable under virtual time")
+
+
+ALL = {c.id: c for c in [C01, C02, C03, C04, C06, C07, C08, C09, C10, C11, C15, C17, C18, C19]}
 NOT_CLAIMED = {}
 
 
@@ -236,6 +398,8 @@ def setup():
             for name in sorted({c.harness for c in ALL.values()}):
                 cls = [c for c in ALL.values() if c.harness == name][0]
                 runner.build_harness(name, go=cls.harness_go, test=cls.harness_test, pkg=cls.harness_pkg)
+                for extra in getattr(cls, "extra_harness", []):
+                    runner.build_harness(extra)
     except InfraError as e:
         print("ERROR:", e)
         return 2
@@ -259,8 +423,12 @@ def run_once(P, tier, seed, budget, workdir, binary, drivers):
     merged = dict(ops=0, distinct=0, classes={}, generated={}, samples=[], findings=[])
     all_dis, total = [], 0
     for flag, drvname, share in streams:
-        stats, dis, n = run_stream(P, tier, seed, max(1, int(budget * share)), os.path.join(workdir, flag), binary,
-                                   drivers[drvname], flag)
+        if issubclass(P, Proto):
+            stats, dis, n = run_proto_stream(P, tier, seed, max(1, int(budget * share)), os.path.join(workdir, flag),
+                                             binary, drivers[drvname], flag)
+        else:
+            stats, dis, n = run_stream(P, tier, seed, max(1, int(budget * share)), os.path.join(workdir, flag),
+                                       binary["main"], drivers[drvname], flag)
         merged["ops"] += stats.get("ops", 0)
         merged["distinct"] += stats.get("distinct", 0)
         for k in ("classes", "generated"):
@@ -331,8 +499,13 @@ def run(prop, tier, seed):
             if not leanchecker_ok:
                 audit_log += "\nleanchecker: " + lc[-2000:]
         built = runner.build_harness(P.harness, go=P.harness_go, test=P.harness_test, pkg=P.harness_pkg)
-        binary = os.path.join(workdir, os.path.basename(built))
-        shutil.copy(built, binary)
+        binary = {"main": os.path.join(workdir, os.path.basename(built))}
+        shutil.copy(built, binary["main"])
+        binary[P.harness] = binary["main"]
+        for extra in getattr(P, "extra_harness", []):
+            b2 = runner.build_harness(extra)
+            binary[extra] = os.path.join(workdir, extra)
+            shutil.copy(b2, binary[extra])
         drivers = {}
         for dn in sorted({d for _, d, _ in (P.streams or [(P.id, "knxdrv", 1.0)])}):
             src = os.path.join(LEAN, ".lake", "build", "bin", dn)
